@@ -15,24 +15,24 @@ import (
 // Features switches generator features on/off. A feature whose modelling is not finished is
 // switched off HERE (the comparison is never loosened).
 type Features struct {
-	Proggen      bool // proggen programs as contract code
-	OwnProgs     bool // this package's targeted programs (precompile inputs, refund patterns, ...)
-	AccessList   bool
-	DynFee       bool
-	Blob         bool
-	SetCode      bool
-	InvalidTxs   bool // deliberately invalid transactions (rejections)
-	Withdrawals  bool
-	SystemTxs    bool // transactions to the request system contracts / deposit stub
-	CreateTxs    bool
-	Delegated    bool // EOAs with a delegation designator in the pre-state
-	BadDeposits  bool // deposit logs of the wrong length (invalid block)
+	Proggen          bool // proggen programs as contract code
+	OwnProgs         bool // this package's targeted programs (precompile inputs, refund patterns, ...)
+	AccessList       bool
+	DynFee           bool
+	Blob             bool
+	SetCode          bool
+	InvalidTxs       bool // deliberately invalid transactions (rejections)
+	Withdrawals      bool
+	SystemTxs        bool // transactions to the request system contracts / deposit stub
+	CreateTxs        bool
+	Delegated        bool // EOAs with a delegation designator in the pre-state
+	BadDeposits      bool // deposit logs of the wrong length (invalid block)
 	BadDepositLayout bool // 576-byte deposit logs with wrong offset/size words (EIP-6110 layout validation)
 	// StorageOnlyCollision: CREATE/CREATE2 onto an account with storage but neither nonce nor
 	// code (EIP-7610). go-ethereum only rejects a fixed list of 28 mainnet addresses.
 	StorageOnlyCollision bool
-	GasBoundary  bool // gas limits at intrinsic/floor boundaries and tight execution gas
-	DerivedFees  bool // base fee / excess blob gas derived from parent fields
+	GasBoundary          bool // gas limits at intrinsic/floor boundaries and tight execution gas
+	DerivedFees          bool // base fee / excess blob gas derived from parent fields
 }
 
 var allFeatures = Features{Proggen: true, OwnProgs: true, AccessList: true, DynFee: true, Blob: true, SetCode: true, InvalidTxs: true,
@@ -83,23 +83,23 @@ func randWord(rng *rand.Rand) *big.Int {
 }
 
 type caseGen struct {
-	rng   *rand.Rand
-	fork  refevm.Fork
-	ft    Features
-	c     *Case
-	eoas  []keyPair        // funded signers present in the pre-state
-	conts []refevm.Address // generated contracts
-	univ  []refevm.Address // address universe for references
-	nonce map[refevm.Address]uint64
-	tags  map[string]bool
-	codeSender *keyPair // signer whose account carries plain code
+	rng          *rand.Rand
+	fork         refevm.Fork
+	ft           Features
+	c            *Case
+	eoas         []keyPair        // funded signers present in the pre-state
+	conts        []refevm.Address // generated contracts
+	univ         []refevm.Address // address universe for references
+	nonce        map[refevm.Address]uint64
+	tags         map[string]bool
+	codeSender   *keyPair // signer whose account carries plain code
 	blockGasLeft uint64
-	recursers  []refevm.Address // contracts carrying the loop-free self-recursion probe
-	refunders  []refevm.Address // contracts carrying the SSTORE gas/refund probe
-	delegated  []refevm.Address // accounts carrying a delegation designator in the pre-state
-	steerEnv   *refevm.BlockEnv // incremental model run used for steering only
-	steerState refevm.State
-	steerCtx   *refevm.BlockCtx
+	recursers    []refevm.Address // contracts carrying the loop-free self-recursion probe
+	refunders    []refevm.Address // contracts carrying the SSTORE gas/refund probe
+	delegated    []refevm.Address // accounts carrying a delegation designator in the pre-state
+	steerEnv     *refevm.BlockEnv // incremental model run used for steering only
+	steerState   refevm.State
+	steerCtx     *refevm.BlockCtx
 }
 
 func (g *caseGen) tag(s string) { g.tags[s] = true }
